@@ -14,7 +14,7 @@ Import ListNotations.
    and >= order + 1, knots finite and non-decreasing; row-major strides; array sizes consistent) and its sizes are the header's *)
 Theorem C07_accept_wf : forall b t, read_bytes_checked b = RAccept t -> safe_table t = true /\ sizes_match_header b t.
 Proof. exact accept_wf. Qed.
-Theorem C07_accept_wf_mem : forall b t, read_mem_checked b = RAccept t -> safe_table t = true /\ sizes_match_header b t.
+Theorem C07_accept_wf_mem : forall b t, read_mem_checked b = RAccept t -> safe_table t = true /\ sizes_match_header (whole_blocks b) t.
 Proof. exact accept_wf_mem. Qed.
 (* ... for any list of checks that contains the four required ones, whatever else it contains and in whatever order *)
 Theorem C07_checks_sufficient : forall cs d t, has_required cs = true -> checked_with cs d = RAccept t -> safe_table t = true.
